@@ -66,7 +66,7 @@ TIME_FIELDS = {
 }
 
 
-@lemma({"v": int}, params=lambda tier, seed: [k for k in TIME_FIELDS if tier == "thorough" or "ffffff" not in k.lower()], budget=300,
+@lemma({"v": int}, params=lambda tier, seed: list(TIME_FIELDS), budget=300,
        thorough_budget=1500, per_path=30,
        bounds="every value of the field's range under the single-field LocalTime pattern: parse(format(time with that field)) returns the field")
 def time_field_roundtrip(P):
@@ -97,7 +97,7 @@ def time_two_field_roundtrip(P):
     return h
 
 
-@lemma({"hh": int, "mi": int, "ss": int, "f": int}, params=lambda tier, seed: [[p, a, b] for p in ("iso", "long-iso") for a in range(0, 24, 6) for b in ((0, 1) if tier == "thorough" else (0,))],
+@lemma({"hh": int, "mi": int, "ss": int, "f": int}, params=lambda tier, seed: [[p, a, b] for p in ("iso", "long-iso") for a in range(0, 24, 6) for b in (0, 1)],
        budget=300, thorough_budget=600, per_path=40,
        bounds="every LocalTime (nanosecond precision; partitioned by 6-hour block and by zero / non-zero fraction) under the built-in "
               "extended ISO patterns (HH:mm:ss;FFFFFFFFF and the 9-digit long form): parse(format(t)) == t")
